@@ -115,6 +115,16 @@ class RuleMd041(RulePlugin):
             ) and not html_block_contents.startswith("<h1>"):
                 self.report_next_token_error(context, self.__seen_html_block_start)
             self.__have_seen_first_token = True
+        elif token.is_end_of_stream:
+            # Nothing but blank lines in the document: the end-of-stream token is
+            # positioned after the last line (column 0), so report on the first line.
+            self.report_next_token_error(
+                context,
+                token,
+                line_number_delta=1 - token.line_number,
+                column_number_delta=-1,
+            )
+            self.__have_seen_first_token = True
         elif not token.is_blank_line:
             self.report_next_token_error(context, token)
             self.__have_seen_first_token = True
